@@ -146,6 +146,12 @@ fn case(r: &mut Rng, res: &mut CaseResult) {
         let text = wire::rand_shortstr(r);
         let want_err = format!("ServerClosedChannel({},{},{:?})", n, code, text);
         let before = h.peek(|st| st.reflex.chan_close_oks.iter().filter(|c| **c == n).count());
+        // in a fifth of the rounds nothing can be written when the close arrives (the
+        // CloseOk has to wait; nobody else may be disturbed by that), then it drains
+        let stalled = r.chance(1, 5);
+        if stalled {
+            h.with(|st| st.budget = r.usize(0, 30));
+        }
         // the awaited reply and the close back to back in one read (reply first)
         let reply_then_close = state == VState::RpcInFlight && !react_drop && r.chance(1, 3);
         if reply_then_close {
@@ -165,7 +171,11 @@ fn case(r: &mut Rng, res: &mut CaseResult) {
         } else {
             h.inject(chan_close_frame(n, code, &text));
         }
-        log.push(format!("round {}: server closes channel {} in state {:?} (owner reacts by dropping: {})", round, n, state, react_drop));
+        log.push(format!("round {}: server closes channel {} in state {:?} (owner reacts by dropping: {}, transport stalled: {})", round, n, state, react_drop, stalled));
+        if stalled {
+            std::thread::sleep(std::time::Duration::from_micros(r.range(100, 3000)));
+            h.grant(usize::MAX);
+        }
         // the client must answer CloseOk on n
         if !h.wait(W, |st| st.reflex.chan_close_oks.iter().filter(|c| **c == n).count() > before) {
             res.violate("no_close_ok", format!("no Channel.CloseOk on channel {} after the server closed it", n));
